@@ -218,6 +218,8 @@ ISOMETRIES = [
     ("uniform", lambda rng, vb: (0.5, 0, 0, 0.5, rng.randint(0, vb // 2), rng.randint(0, vb // 2))),
     ("rot", lambda rng, vb: (lambda a: (math.cos(a), math.sin(a), -math.sin(a), math.cos(a), vb / 2, 0))(math.radians(rng.choice([30, 45, 17])))),
     ("shear", lambda rng, vb: (1, 0, 0.5, 1, 0, 0)),
+    ("scale_y_only", lambda rng, vb: (1, 0, 0, rng.choice([0.5, 1.5, 2]), rng.randint(0, vb // 4), rng.randint(0, vb // 4))),
+    ("scale_x_only", lambda rng, vb: (rng.choice([0.5, 1.5, 2]), 0, 0, 1, rng.randint(0, vb // 4), rng.randint(0, vb // 4))),
 ]
 
 
@@ -241,7 +243,7 @@ def gen_svg_set(rng, n_glyphs=None, gradients=True, groups=True, special_colors=
                 base = rng.choice(library)
                 name, tf = rng.choice(ISOMETRIES)
                 t = tf(rng, vbw)
-                if base["kind"] in ("ellipse",) and name in ("scale", "shear"):
+                if base["kind"] in ("ellipse",) and name in ("scale", "shear", "scale_y_only", "scale_x_only"):
                     t = (1, 0, 0, 1, 3, 2)
                 cmds = transform_cmds(base["cmds"], t)
                 shape = {"kind": base["kind"], "cmds": cmds, "reused": name}
